@@ -76,17 +76,24 @@ Definition m_ok (P : nat -> Prop) (n : nat) (m : list (nat * sigval)) : Prop :=
   NoDup (map fst m) /\ (length m <= maj_m n - 1)%nat /\
   Forall (fun e => sv_by (snd e) = fst e /\ (fst e + 1 < n)%nat /\ P (fst e)) m.
 
+(** The remote part of the witness is either not appended yet or the result
+    of one finalisation. *)
+Definition script_ok (P : nat -> Prop) (n : nat) (sc : list sigval) : Prop :=
+  sc = [] \/
+  (length sc = (maj_m n - 1)%nat /\ NoDup (map sv_by sc) /\
+   Forall (fun s => (sv_by s + 1 < n)%nat /\ P (sv_by s)) sc).
+
 Definition linv (P : nat -> Prop) (n : nat) (l : leader) : Prop :=
-  (l_full l = false -> l_script l = []) /\ m_ok P n (l_m l).
+  (l_full l = false -> l_script l = []) /\ m_ok P n (l_m l) /\ script_ok P n (l_script l).
 
 Lemma m_ok_nil P n : m_ok P n [].
 Proof. split; [constructor|]. split; [simpl; lia|constructor]. Qed.
 
 Lemma linv_leader0 P n : linv P n leader0.
-Proof. split; [reflexivity|apply m_ok_nil]. Qed.
+Proof. split; [reflexivity|split; [apply m_ok_nil|left; reflexivity]]. Qed.
 
 Lemma linv_reset P n l : linv P n (reset_tx l).
-Proof. split; [reflexivity|apply m_ok_nil]. Qed.
+Proof. split; [reflexivity|split; [apply m_ok_nil|left; reflexivity]]. Qed.
 
 (** Chain-side premise of the collection loop: which indices may be inserted. *)
 Definition recs_ok (P : nat -> Prop) (c : chain) : Prop :=
@@ -161,7 +168,7 @@ Record tick_ok (P : nat -> Prop) (n : nat) (c : chain) (c' : chain) (l' : leader
   to_pool : forall e, In e (c_pool c') -> In e (c_pool c) \/ In (ESent (fst e) (snd e)) ev;
   to_asm : forall d sc, In (EAssembled d sc) ev -> assembled_ok n d sc /\ Forall (fun s => P (sv_by s)) (tail sc);
   to_sent : forall id d sc, In (ESent id (WDesignate d sc)) ev ->
-            valid_witness n d sc = true /\ length sc = maj_m n
+            valid_witness n d sc = true /\ length sc = maj_m n /\ script_ok P n (tail sc)
 }.
 
 Lemma pool_add_spec c w c' id :
@@ -181,7 +188,7 @@ Proof.
   destruct (write_ok c w); cbn [negb].
   - destruct (pool_add c w) as [c1 id] eqn:Ep. intros [= <- <- <-].
     apply pool_add_spec in Ep as (Hp & Hd & Ht & Hs & Hh).
-    split; [split; [reflexivity|apply m_ok_nil]|]. split; [exact Hd|]. split; [auto|]. split.
+    split; [split; [reflexivity|split; [apply m_ok_nil|left; reflexivity]]|]. split; [exact Hd|]. split; [auto|]. split.
     + intros e He. rewrite Hp in He. apply in_app_or in He as [He|[<-|[]]]; [left; exact He|].
       right. left. reflexivity.
     + intros e [<-|[]]. exists id, w. split; [reflexivity|]. subst w. destruct b; reflexivity.
@@ -262,8 +269,8 @@ Proof.
   destruct (bool_decide (is_Some (l_reg l))); [intros [= <- <- <-]; apply tick_ok_same; exact Hl|].
   destruct (l_tried l) eqn:Etried; [apply gas_tick_ok|].
   pose proof (maj_m_pos n Hn) as Hpos.
-  assert (Hlen : length (l_m l) = (maj_m n - 1)%nat) by (destruct Hl as (_ & _ & Hle & _); lia).
-  pose proof (range_map_ok P n order (l_m l) (proj2 Hl)) as (Hrnd & Hrall & Hrlen).
+  assert (Hlen : length (l_m l) = (maj_m n - 1)%nat) by (destruct Hl as (_ & (_ & Hle & _) & _); lia).
+  pose proof (range_map_ok P n order (l_m l) (proj1 (proj2 Hl))) as (Hrnd & Hrall & Hrlen).
   (* the (possibly) finalised leader and the event of finalisation *)
   set (lev := if l_full l then _ else _).
   assert (Hlev : linv P n (fst lev) /\ Forall (pre_ok P n) (snd lev) /\
@@ -271,7 +278,9 @@ Proof.
   { subst lev. destruct (l_full l) eqn:Ef; cbn [fst snd].
     - split; [exact Hl|]. split; [constructor|reflexivity].
     - rewrite (proj1 Hl Ef). cbn [app].
-      split; [split; [discriminate|exact (proj2 Hl)]|]. split; [|reflexivity].
+      split; [split; [discriminate|split; [exact (proj1 (proj2 Hl))|]]|].
+      { right. cbn [l_script]. split; [lia|]. split; [exact Hrnd|exact Hrall]. }
+      split; [|reflexivity].
       constructor; [|constructor]. cbn [pre_ok]. split.
       + split; [cbn [length]; lia|]. split; [reflexivity|]. cbn [tail]. split; [exact Hrnd|].
         eapply List.Forall_impl; [|exact Hrall]. intros s [H _]. exact H.
@@ -292,12 +301,13 @@ Proof.
     change (ev1 ++ [ESent id w]) with (ev1 ++ [ESent id w]).
     apply tick_ok_prepend; [|exact Hev1].
     split.
-    + destruct Hl1 as [Ha Hb]. split; [exact Ha|exact Hb].
+    + destruct Hl1 as (Ha & Hb & Hc). split; [exact Ha|split; [exact Hb|exact Hc]].
     + exact Hd.
     + auto.
     + intros e He. rewrite Hp in He. apply in_app_or in He as [He|[<-|[]]]; [left; exact He|right; left; reflexivity].
     + intros d0 sc [H|[]]. discriminate.
-    + intros id0 d0 sc [H|[]]. injection H as _ <- <-. apply Hv0, Hv. reflexivity.
+    + intros id0 d0 sc [H|[]]. injection H as _ <- <-.
+      destruct (Hv0 (Hv eq_refl)) as [Hw Hlw]. split; [exact Hw|]. split; [exact Hlw|]. exact (proj2 (proj2 Hl1)).
   - (* invalid signature *)
     intros [= <- <- <-]. rewrite <- (app_nil_r (ev1 ++ _)).
     apply tick_ok_prepend; [apply tick_ok_same; exact Hl1|].
@@ -336,7 +346,7 @@ Proof.
     set (l1 := if bool_decide (l_tx l = Some d) then l else _).
     assert (Hl1 : linv P n l1).
     { subst l1. destruct (bool_decide (l_tx l = Some d)); [exact Hl|].
-      destruct Hl as [_ Hm]. split; [reflexivity|exact Hm]. }
+      destruct Hl as (_ & Hm & _). split; [reflexivity|]. split; [exact Hm|left; reflexivity]. }
     clearbody l1. clear Hl l. rename l1 into l, Hl1 into Hl.
     set (need := (maj_m n - 1)%nat).
     set (collected := if (length (l_m l) <? need)%nat then _ else _).
@@ -344,10 +354,156 @@ Proof.
                    | CContinue m' _ | CBreak m' => m_ok P n m'
                    | CRegenerate => True end).
     { subst collected. destruct (length (l_m l) <? need)%nat eqn:E.
-      - pose proof (collect_loop_ok P n c d (seq 0 (n - 1)) (l_m l) 0%nat Hc (seq_bound n) (proj2 Hl) ltac:(subst need; lia)) as H.
+      - pose proof (collect_loop_ok P n c d (seq 0 (n - 1)) (l_m l) 0%nat Hc (seq_bound n) (proj1 (proj2 Hl)) ltac:(subst need; lia)) as H.
         fold need in H. destruct (collect_loop n c d need (l_m l) 0 (seq 0 (n - 1))); [apply H|exact H|exact I].
-      - exact (proj2 Hl). }
+      - exact (proj1 (proj2 Hl)). }
     destruct collected as [m inv|m|]; [| |apply gas_tick_ok].
-    + apply leader_finish_ok; [exact Hn|]. split; [exact (proj1 Hl)|exact Hcol].
-    + apply leader_finish_ok; [exact Hn|]. split; [exact (proj1 Hl)|exact Hcol].
+    + apply leader_finish_ok; [exact Hn|]. split; [exact (proj1 Hl)|split; [exact Hcol|exact (proj2 (proj2 Hl))]].
+    + apply leader_finish_ok; [exact Hn|]. split; [exact (proj1 Hl)|split; [exact Hcol|exact (proj2 (proj2 Hl))]].
+Qed.
+
+(** * Signer and solo ticks *)
+
+Lemma tick_ok_send P n c c1 id w l :
+  linv P n l -> pool_add c w = (c1, id) -> is_designate w = false ->
+  tick_ok P n c c1 l [ESent id w].
+Proof.
+  intros Hl Ep Hw. apply pool_add_spec in Ep as (Hp & Hd & Ht & Hs & Hh).
+  split; try assumption; try (repeat split; assumption).
+  - intros e He. rewrite Hp in He. apply in_app_or in He as [He|[<-|[]]]; [left; exact He|right; left; reflexivity].
+  - intros d sc [H|[]]. discriminate.
+  - intros id' d sc [H|[]]. injection H as _ ->. discriminate Hw.
+Qed.
+
+Lemma signer_tick_ok P n k c sg c' sg' ev l :
+  linv P n l -> signer_tick k c sg = (c', sg', ev) -> tick_ok P n c c' l ev.
+Proof.
+  intros Hl. unfold signer_tick.
+  destruct (lookup_tx c) as [| |d]; try (intros [= <- <- <-]; apply tick_ok_same; exact Hl).
+  destruct (d_vub d <? c_height c); [intros [= <- <- <-]; apply tick_ok_same; exact Hl|].
+  destruct (lookup_sig c k) as [| |r].
+  - destruct (bool_decide (is_Some _)); [intros [= <- <- <-]; apply tick_ok_same; exact Hl|].
+    destruct (pool_add c (WRegSig k)) as [c1 id] eqn:Ep. intros [= <- <- <-].
+    eapply tick_ok_send; eauto.
+  - destruct (bool_decide (is_Some _)); [intros [= <- <- <-]; apply tick_ok_same; exact Hl|].
+    destruct (write_ok c _); cbn [negb]; [|intros [= <- <- <-]; apply tick_ok_same; exact Hl].
+    destruct (pool_add c _) as [c1 id] eqn:Ep. intros [= <- <- <-].
+    eapply tick_ok_send; eauto.
+  - destruct (_ && _); [intros [= <- <- <-]; apply tick_ok_same; exact Hl|].
+    destruct (write_ok c _); cbn [negb]; [|intros [= <- <- <-]; apply tick_ok_same; exact Hl].
+    destruct (pool_add c _) as [c1 id] eqn:Ep. intros [= <- <- <-].
+    eapply tick_ok_send; eauto.
+Qed.
+
+Lemma solo_tick_ok P nonce c p c' p' ev l :
+  linv P 1 l -> solo_tick nonce c p = (c', p', ev) -> tick_ok P 1 c c' l ev.
+Proof.
+  intros Hl. unfold solo_tick.
+  destruct (bool_decide (is_Some p)); [intros [= <- <- <-]; apply tick_ok_same; exact Hl|].
+  destruct (pool_add c _) as [c1 id] eqn:Ep. intros [= <- <- <-].
+  apply pool_add_spec in Ep as (Hp & Hd & Ht & Hs & Hh).
+  split; try assumption; try (repeat split; assumption).
+  - intros e He. rewrite Hp in He. apply in_app_or in He as [He|[<-|[]]]; [left; exact He|right; left; reflexivity].
+  - intros d sc [H|[]]. discriminate.
+  - intros id' d sc [H|[]]. injection H as _ <- <-. split; [|split; [reflexivity|left; reflexivity]].
+    unfold valid_witness. cbn [forallb map strictly_increasing sv_over sv_by].
+    rewrite bool_decide_eq_true_2 by reflexivity. reflexivity.
+Qed.
+
+(** * Global invariant over histories *)
+
+Definition ginv (P : nat -> Prop) (n : nat) (s : pstate) (evs : list event) : Prop :=
+  linv P n (p_leader s) /\
+  (forall e, In e (c_pool (p_chain s)) -> In (ESent (fst e) (snd e)) evs) /\
+  (c_designated (p_chain s) = true -> exists id d sc, In (ESent id (WDesignate d sc)) evs) /\
+  (forall d sc, In (EAssembled d sc) evs -> assembled_ok n d sc /\ Forall (fun s => P (sv_by s)) (tail sc)) /\
+  (forall id d sc, In (ESent id (WDesignate d sc)) evs ->
+     valid_witness n d sc = true /\ length sc = maj_m n /\ script_ok P n (tail sc)).
+
+Lemma ginv_init P n h0 : ginv P n (pinit h0) [].
+Proof.
+  split; [apply linv_leader0|]. split; [intros e []|]. split; [discriminate|].
+  split; intros; contradiction.
+Qed.
+
+Lemma ginv_tick P n c l sg so c' l' sg' so' ev evs :
+  tick_ok P n c c' l' ev -> ginv P n (mkP c l sg so) evs -> ginv P n (mkP c' l' sg' so') (evs ++ ev).
+Proof.
+  intros [T1 T2 T3 T4 T5 T6] (G1 & G2 & G3 & G4 & G5). unfold ginv. cbn [p_chain p_leader] in *.
+  split; [exact T1|]. split; [|split; [|split]].
+  - intros e He. apply in_or_app. destruct (T4 e He) as [H|H]; [left; apply G2; exact H|right; exact H].
+  - rewrite T2. intros Hd. destruct (G3 Hd) as (id & d & sc & Hin). exists id, d, sc. apply in_or_app. left. exact Hin.
+  - intros d sc Hin. apply in_app_or in Hin as [Hin|Hin]; [apply G4; exact Hin|apply T5; exact Hin].
+  - intros id d sc Hin. apply in_app_or in Hin as [Hin|Hin]; [apply (G5 id); exact Hin|apply (T6 id); exact Hin].
+Qed.
+
+Lemma apply_write_pool c w : c_pool (apply_write c w) = c_pool c.
+Proof. unfold apply_write. repeat case_match; reflexivity. Qed.
+
+Lemma apply_write_des c w :
+  c_designated (apply_write c w) = true -> c_designated c = true \/ is_designate w = true.
+Proof. unfold apply_write. repeat case_match; cbn; auto. Qed.
+
+Lemma In_delete {A} (x : A) i (l : list A) : In x (delete i l) -> In x l.
+Proof.
+  revert i. induction l as [|y l IH]; intros [|i]; cbn; auto.
+  intros [H|H]; [left; exact H|right; apply (IH i); exact H].
+Qed.
+
+Lemma list_find_In {A} (f : A -> bool) (l : list A) i x :
+  list_find (fun e => f e = true) l = Some (i, x) -> In x l.
+Proof.
+  intros H. apply list_find_Some in H as (H & _ & _).
+  apply elem_of_list_In. eapply elem_of_list_lookup_2. exact H.
+Qed.
+
+Lemma linv_flags P n l r s : linv P n l ->
+  linv P n (mkLeader (l_tx l) (l_script l) (l_m l) (l_full l) (l_tried l) r s).
+Proof. intros H. exact H. Qed.
+
+Lemma land_ginv P n id s evs : ginv P n s evs -> ginv P n (land id s) evs.
+Proof.
+  intros G. unfold land.
+  destruct (list_find _ (c_pool (p_chain s))) as [[pos [id' w]]|] eqn:Ef; [|exact G].
+  assert (Hin : In (id', w) (c_pool (p_chain s))).
+  { apply list_find_Some in Ef as (H & _ & _).
+    apply elem_of_list_In. eapply elem_of_list_lookup_2. exact H. }
+  destruct G as (G1 & G2 & G3 & G4 & G5).
+  unfold ginv, clear_flags. cbn [p_chain p_leader].
+  split; [exact G1|]. split; [|split; [|split; assumption]].
+  - cbn [c_pool]. intros e He. apply In_delete in He. rewrite apply_write_pool in He. apply G2. exact He.
+  - cbn [c_designated]. intros Hd. apply apply_write_des in Hd as [Hd|Hd]; [apply G3; exact Hd|].
+    destruct w; try discriminate. exists id', d, script. exact (G2 _ Hin).
+Qed.
+
+Lemma land_all_ginv P n ids : forall s evs,
+  ginv P n s evs -> ginv P n (fold_left (fun s (e : nat * write) => land (fst e) s) ids s) evs.
+Proof.
+  induction ids as [|e ids IH]; intros s evs G; [exact G|]. cbn [fold_left]. apply IH. apply land_ginv. exact G.
+Qed.
+
+(** One step of any label, under a chain-side premise that bounds what the
+    leader may collect. *)
+Lemma pstep_ginv P n maxinc s lb s' ev evs :
+  (1 <= n)%nat -> recs_ok P (p_chain s) ->
+  pstep n maxinc s lb = (s', ev) -> ginv P n s evs -> ginv P n s' (evs ++ ev).
+Proof.
+  intros Hn Hc Hstep G. destruct s as [c l sg so]. destruct lb as [k nonce order|k|id| | |i recs]; cbn [pstep p_chain p_leader p_signers p_solo] in Hstep.
+  - destruct (c_designated c || negb (k <? n)%nat); [injection Hstep as <- <-; rewrite app_nil_r; exact G|].
+    destruct (n =? 1)%nat eqn:E1.
+    + apply Nat.eqb_eq in E1. subst n.
+      destruct (solo_tick nonce c so) as [[c1 p1] ev1] eqn:Et. injection Hstep as <- <-.
+      eapply ginv_tick; [|exact G]. eapply solo_tick_ok; [exact (proj1 G)|exact Et].
+    + destruct (k =? 0)%nat.
+      * destruct (leader_tick n maxinc nonce order c l) as [[c1 l1] ev1] eqn:Et. injection Hstep as <- <-.
+        eapply ginv_tick; [|exact G]. eapply leader_tick_ok; [exact Hn|exact Hc|exact (proj1 G)|exact Et].
+      * destruct (signer_tick k c _) as [[c1 sg1] ev1] eqn:Et. injection Hstep as <- <-.
+        eapply ginv_tick; [|exact G]. eapply signer_tick_ok; [exact (proj1 G)|exact Et].
+  - destruct (k =? 0)%nat; injection Hstep as <- <-; rewrite app_nil_r;
+      destruct G as (G1 & G2 & G3 & G4 & G5); (split; [|split; [|split; [|split]]]; try assumption).
+    apply linv_leader0.
+  - injection Hstep as <- <-. rewrite app_nil_r. apply land_ginv. exact G.
+  - injection Hstep as <- <-. rewrite app_nil_r. apply land_all_ginv. exact G.
+  - injection Hstep as <- <-. rewrite app_nil_r. exact G.
+  - injection Hstep as <- <-. rewrite app_nil_r. exact G.
 Qed.
